@@ -323,6 +323,14 @@ def run_callbacks_once(case, faulty_points):
                 snaps.append(sorted(k for k in s.attributes.keys() if k.startswith('deco.')))
                 return orig_push(s)
             deep.push.push_snapshot = push
+            futures = []
+            orig_submit = deep.task_handler.submit_task
+
+            def submit(task, *args):
+                f = orig_submit(task, *args)
+                futures.append(f)
+                return f
+            deep.task_handler.submit_task = submit
             host = {}
             try:
                 host['ret'] = h.modules['calls'].main(case['inp'], lambda t: None)
@@ -331,12 +339,14 @@ def run_callbacks_once(case, faulty_points):
             out['host'] = host
             out['trace_kept'] = sys.gettrace() == deep.trigger_handler.trace_call
             out['snapshots'] = snaps
-            for fut in list(deep.task_handler._pending.values()):
-                try:
-                    fut.result(10)
-                except BaseException:       # noqa: B902
-                    pass
+            # deterministic drain: every future submit_task handed out must be done before anything is counted
+            # (a timeout is an infrastructure error, never a verdict)
+            import concurrent.futures as cf
+            done, not_done = cf.wait(futures, timeout=120)
+            if not_done:
+                raise core.Infra(f'{len(not_done)} of {len(futures)} submitted sends did not finish within 120 s')
             ch = deep.grpc.channel
+            out['submitted'] = len(futures)
             out['sent'] = len(ch.sent) if ch is not None else 0
         try:
             deep.shutdown()
@@ -370,9 +380,9 @@ def in_thread(fn, *a):
             box['crash'] = f'{type(e).__name__}: {e}\n' + traceback.format_exc()[-1200:]
     t = threading.Thread(target=body)
     t.start()
-    t.join(120)
+    t.join(400)
     if t.is_alive():
-        raise core.Infra('C20 case did not finish in 120 s')
+        raise core.Infra('C20 case did not finish in 400 s')
     if 'infra' in box:
         raise core.Infra(box['infra'])
     if 'crash' in box:
